@@ -2252,7 +2252,7 @@ def run(ctx):
     ctx.assumptions += [
         "the CRC detection theorems assume a received check field that is not all-zero (the constructors treat 0 as 'please generate': known finding zero-check-field; for a confirmed last block also a non-zero CRC-32 field, sent and received); the oracle does not",
         "bursts are bursts of the order in which the CRC covers the bits: for the short LC the 8 CRC bits are sent least significant bit first, for a confirmed block the order is data, (CRC-32,) serial number, CRC-9 (sent LSB first); a burst of the PDU bit order that straddles these field boundaries is not a burst of the code and carries no guarantee (ETSI layout, not a library matter)",
-        "HRNP: single-bit errors that clear a bit of the packet-length field are not covered by the theorem (the packet is then checked as a shorter one); the oracle includes them for exact-length buffers; with trailing context an inverted length bit makes the parser read into the context (another octet range is summed, nothing is guaranteed): those cases are compared model vs code only",
+        "HRNP (after /repo bc140b5): every single-bit error of a library-serialised DATA packet, the two packet-length octets included, is covered by the theorem (C04p hrnp_single_bit, hrnp_single_bit_in_context: the announced length is cross-checked with the length the carried HDAP message accounts for) and judged by the oracle for exact-length buffers and with trailing context; for packets WITHOUT payload (no HDAP message to cross-check) a set length bit reads into the trailing context: those cases are compared model vs code only",
         "a little-endian bitarray is not a received word of this library (ba2int of it reads other values): only big-endian bitarrays, as as_bits() produces them, are fed",
         "PIHeader.from_bits takes the last 16 bits of any buffer as the CRC: a longer buffer is a longer PI header, there is no trailing context for it (other lengths are exercised as PDUs of their own)",
     ]
